@@ -18,7 +18,20 @@ fn prefixes(op: StrOp) -> Vec<Rep> {
 fn hostile_string_state(rng: &mut Rng, cx: u16) -> Regs {
     let mut r = hostile_regs(rng);
     r[CX] = cx;
-    match rng.below(7) {
+    match rng.below(9) {
+        7 | 8 => {
+            // physical overlap through different segments: (ES-DS)*16 + DI = SI + k for small k, while the
+            // 16-bit offsets look unrelated
+            let d = 1 + rng.below(0x0FFF) as u16;
+            let k = rng.below(5) as i32 - 2;
+            if rng.chance(1, 2) {
+                r[ES] = r[DS].wrapping_add(d);
+                r[DI] = (r[SI] as i32 + k - 16 * d as i32) as u16;
+            } else {
+                r[ES] = r[DS].wrapping_sub(d);
+                r[DI] = (r[SI] as i32 + k + 16 * d as i32) as u16;
+            }
+        }
         0 => {
             // overlap in the same segment
             r[ES] = r[DS];
@@ -220,7 +233,7 @@ pub fn run(rep: &Report) {
     sweep(rep, 64, 4, true, 0xC07);
     source_plane(rep, true, 0xC07);
     let t = rep.thorough();
-    sweep(rep, 64, if t { 200 } else { 6 }, false, rep.seed ^ 0x70);
+    sweep(rep, 64, if t { 200 } else { 40 }, false, rep.seed ^ 0x70);
     if t {
         // long counts, sampled
         long_counts(rep);
@@ -255,4 +268,4 @@ fn long_counts(rep: &Report) {
     });
 }
 
-pub const RULE: &str = "{movs,lods,stos,cmps,scas} x {byte,word} x DF x prefix {none, rep, repe/repz, repne/repnz} x every CX in 0..64 (thorough: sampled up to 0xFFFF) from hostile DS/ES/SI/DI (overlap, SI/DI crossing 0xFFFF, DS != ES, segments straddling 2^20), memory crafted so that REPE/REPNE stop at every position; the emitted line is re-issued while the interpreter answers REPEAT (the driver's protocol) and the final whole state is compared with the reference REP loop. Distinct = (instruction, CX, DF, accept-set member, number of issues).";
+pub const RULE: &str = "{movs,lods,stos,cmps,scas} x {byte,word} x DF x prefix {none, rep, repe/repz, repne/repnz} x every CX in 0..64 (thorough: sampled up to 0xFFFF) from hostile DS/ES/SI/DI (overlap, SI/DI crossing 0xFFFF, DS != ES, segments straddling 2^20), memory crafted so that REPE/REPNE stop at every position; the emitted line is re-issued while the interpreter answers REPEAT (the driver's protocol) and the final whole state is compared with the reference REP loop. Overlap is produced both inside one segment (DI = SI-2..SI+2) and physically through different segments ((ES-DS)*16+DI = SI-2..SI+2). Distinct = (instruction, CX, DF, accept-set member, number of issues).";
